@@ -7,6 +7,7 @@ engine only), plus the explicit `clock=` parameters.
 from __future__ import annotations
 
 import asyncio as _real_asyncio
+from concurrent.futures import ThreadPoolExecutor as _REAL_TPE
 import datetime as _real_datetime
 import random as _real_random
 import sys
@@ -112,6 +113,79 @@ class SimDateTime(_real_datetime.datetime):
         return cls.now(_real_datetime.UTC).replace(tzinfo=None)
 
 
+class SimFuture:
+    """Future of a simulated single-worker pool (discrete-event, virtual time)."""
+
+    def __init__(self, ex, func):
+        self.ex = ex
+        self.func = func
+        self._done = False
+        self._exc = None
+        self._res = None
+        self._cancelled = False
+
+    def result(self, timeout=None):
+        if self._done:
+            if self._exc is not None:
+                raise self._exc
+            return self._res
+        env, clock = B.env, B.clock
+        now = clock.mono_us
+        start = max(now, self.ex.busy_until)            # when the single worker becomes free
+        if timeout is not None:
+            give_up = now + int(round(timeout * 1e6))
+            if start > now and start >= give_up:
+                clock.mono_us = give_up                 # still queued behind an abandoned operation
+                raise TimeoutError()
+        clock.mono_us = start
+        d = env.peek_op_dur()
+        if timeout is None or start + d <= give_up:
+            try:
+                self._res = self.func()
+            except BaseException as exc:  # noqa: BLE001 - a future stores whatever the callable raised
+                self._exc = exc
+            self._done = True
+            if self._exc is not None:
+                raise self._exc
+            return self._res
+        env.op_sync_abandoned(give_up - start)          # the operation starts, the wait gives up first
+        self.ex.busy_until = start + d                  # ... and the abandoned operation keeps the worker busy
+        raise TimeoutError()
+
+    def done(self):
+        return self._done
+
+    def exception(self, timeout=None):
+        return self._exc
+
+    def cancel(self):
+        self._cancelled = True
+        return not self._done
+
+    def cancelled(self):
+        return self._cancelled
+
+
+class SimExecutor:
+    def __init__(self, max_workers=1, **kw):
+        self.busy_until = 0
+
+    def submit(self, func, *a, **k):
+        return SimFuture(self, (lambda: func(*a, **k)) if (a or k) else func)
+
+    def shutdown(self, wait=True, cancel_futures=False):
+        pass
+
+
+def _executor_factory(*a, **k):
+    """ThreadPoolExecutor stand-in inside redress.policy.runner.sync_core: simulated when the
+    scenario lets per-attempt timeouts fire, the real thread pool otherwise."""
+    env = B.env
+    if env is not None and getattr(env, "cfg", None) and env.cfg.get("timeouts_fire"):
+        return SimExecutor(*a, **k)
+    return _REAL_TPE(*a, **k)
+
+
 def _tripwire(_s):
     raise HarnessError("real time.sleep reached during a simulated run")
 
@@ -150,6 +224,9 @@ def install() -> None:
                 g[k] = getattr(RANDOM, v.__name__)
     if getattr(rh, "asyncio", None) is _real_asyncio:
         rh.asyncio = ASYNCIO
+    import redress.policy.runner.sync_core as sc
+    if getattr(sc, "ThreadPoolExecutor", None) is _REAL_TPE:
+        sc.ThreadPoolExecutor = _executor_factory
     # default-argument clocks captured at def time
     from redress import circuit, strategies
 
